@@ -31,9 +31,19 @@ import common
 
 sys.path.insert(0, os.path.dirname(os.path.abspath(__file__)))
 import c10gen as G  # noqa: E402
+import c10key  # noqa: E402
 
 CORPUS = os.path.join(common.VERIF, "corpus", "C10")
 BATCH = 60000
+
+
+KEY_INFO = {}
+
+
+def gen(ctx):
+    """coq/gen/SsaKey.v: the pieces of Environment::version_key and the accesses
+    to the version maps, read from the text of ssa_impl.rs of the tree under test."""
+    KEY_INFO.update(c10key.gen())
 
 
 # --------------------------------------------------------------------------
@@ -222,6 +232,8 @@ class Stats:
         self.collision_sensitive = {}
         self.param_collisions = 0
         self.samples = []
+        self.unbraced = 0
+        self.unbraced_rejected = 0
 
     def bump(self, h, k):
         self.hist[h][k] = self.hist[h].get(k, 0) + 1
@@ -260,6 +272,12 @@ def run_batch(cases, bins, st):
                 continue
             if model[k] != real.get(k):
                 dis.append((k + ": mirror differs from the implementation", real.get(k), model[k]))
+        if sp.get("closed") != ["1"] and not c.get("unbraced"):
+            dis.append(("a generated program is outside Spec.ScopeSpec.branch_closed (a loop body or branch declares a name outside a "
+                        "block): the generator and the domain of C10_renaming_preserves_binding disagree", sp.get("closed"), c["P"][:300]))
+        if c.get("unbraced"):
+            dis.append(("the parser accepts a declaration as the body of a loop or a branch: such programs are outside the domain "
+                        "(branch_closed) of C10_renaming_preserves_binding / C10_shadowing_reports_exact", li[:200], c["text"][:300]))
         if truth["dup_param"] is None and sp.get("occ") != spec_expected(d, truth):
             dis.append(("Spec.ScopeSpec.resolve_def differs from the oracle", sp.get("occ"), spec_expected(d, truth)))
         if dis:
@@ -288,6 +306,28 @@ def run_batch(cases, bins, st):
                 st.collision_sensitive[sep] = st.collision_sensitive.get(sep, 0) + 1
         if len(st.samples) < 3 and len(truth["shadows"]) >= 2 and c["src"] == "random":
             st.samples.append({"source": c["text"], "impl": li[:600]})
+
+
+def run_unbraced(cases, bins, st):
+    """Programs with a bare declaration as loop body / branch. The parser must
+    reject each of them (`noparse`); one that is accepted goes through the
+    normal comparison, where the oracle judges the implementation's scoping."""
+    hb, _ = bins
+    for c in cases:
+        c["unbraced"] = True
+    texts = [G.render(c["d"])[0] for c in cases]
+    impl = common.run_lines(hb, [], [t.encode().hex() for t in texts], shards=common.NPROC)
+    if len(impl) != len(cases):
+        raise common.BuildError("uniq engine outputs differ in length", "%d %d" % (len(impl), len(cases)))
+    accepted = []
+    for c, li in zip(cases, impl):
+        st.unbraced += 1
+        if li.strip() == "noparse":
+            st.unbraced_rejected += 1
+        else:
+            accepted.append(c)
+    if accepted:
+        run_batch(accepted, bins, st)
 
 
 # --------------------------------------------------------------------------
@@ -444,6 +484,9 @@ def run(ctx, proofs):
             batch = []
     if batch:
         run_batch(batch, (hb, mb), st)
+    # 3b. outside the grammar: a declaration as loop body / branch must not parse
+    n_unb = 600 if quick else 6000
+    run_unbraced([{"d": G.unbraced_def(ctx.rng), "clean": False, "src": "unbraced"} for _ in range(n_unb)], (hb, mb), st)
     # 4. end to end
     st_e2e = {"files": 0, "definitions": 0, "findings_expected": 0}
     e2e_cases = [c for c in corpus if not G.has_sugar(c["d"][3])] + e2e_pool
@@ -487,6 +530,12 @@ def run(ctx, proofs):
         "collision_sensitive_rule": "per separator S in %r: cases in which some variable lifts to (n, s) while the identifier n S s occurs as "
                                     "well (`_`: the D20 pattern; empty: a key that concatenates name and suffix)" % (SEPARATORS,),
         "parameter_collisions": st.param_collisions,
+        "unbraced_declarations": {"generated": st.unbraced, "rejected_by_the_parser": st.unbraced_rejected,
+                                  "rule": "functions with a bare declaration as the body of a while or a branch of an if (then / else / both / "
+                                          "below a nested while), uses in the sibling branch and after; all must be rejected by the parser, and "
+                                          "every other generated program must satisfy Spec.ScopeSpec.branch_closed (checked by the extracted "
+                                          "predicate on the projection the real parser built)"},
+        "ssa_key_source": KEY_INFO,
         "corpus_cases": len(corpus),
         "corpus_failing": corpus_failing,
         "disagreements_model_vs_impl": len(st.disagreements),
@@ -507,8 +556,16 @@ def run(ctx, proofs):
         "HashMap-backed blocks of VarEnvironment behave like association lists (insert = overwrite, lookup by key): observed by the correspondence",
         "usize version counters do not overflow (2^64 declarations of one name)",
         "identifiers contain no `.` (IDENTIFIER of lang.lalrpop; C10_identifiers_have_no_dot is about the mirrored character class)",
-        "the SSA key function is private; its repair is observed through into_ssa (reads without definitions, false `used before defined`), "
-        "the mirror ssa_key / ssa_key_old is a transcription",
+        "the SSA key function is private: Model.UniqueVars.ssa_key is rendered from coq/gen/SsaKey.v, which lib/props/c10key.py reads from "
+        "the text of ssa_impl.rs on every run (the two arms of version_key as pieces, every access to the version maps with its key "
+        "expression); trusted: that reader (an arm it does not understand becomes a KOther piece and breaks C10_ssa_key_format_separates). "
+        "The behaviour of the key is observed through into_ssa with lookalike identifiers (x0, x1, x_0, x$0, x__0 ...); ssa_key_old is a "
+        "transcription of the replaced code",
+        "every loop body and branch the pass sees declares nothing outside a block of its own (Spec.ScopeSpec.branch_closed, the domain of "
+        "C10_renaming_preserves_binding and C10_shadowing_reports_exact): checked by the extracted predicate on the projection of every "
+        "parsed case, and the parser rejects every generated program with a bare declaration as loop body or branch; that the desugarer "
+        "keeps the shape (it hoists the declarations it creates to the outermost block of the template) is read from "
+        "syntax_sugar_remover.rs, not checked here",
     ]
 
 
